@@ -364,9 +364,12 @@ Qed.
         with equal names have equal values ([names_ok]) and values are non-negative;
       - [ckk_erase_2]: with two bins the equation  rmap erase (ckk true) = ckk false  is exact.
     The hypothesis [names_ok] cannot be dropped ([ckk_erase_needs_names_ok]).
-    OPEN (no counterexample found by exhaustive search up to 8 items, 3..5 bins, and
-    no proof): the exact equation for 3 or more bins under the same hypotheses; the two
-    runs may explore subtrees with tied keys in different orders, so two optimal
+    OPEN: the exact equation  rmap erase (ckk true k) = ckk false k  for k >= 3 under the same
+    hypotheses.  No counterexample was found (vm_compute on all lists of up to 8
+    distinctly named items with values in {1,2,3} / {1,2,4} / {1,2,3,5} for 3, 4 and 5 bins;
+    200000 random runs of the Python library itself with 5..9 items and 3..5 bins), and no
+    proof: the two runs can visit subtrees with tied keys in different orders (the contents
+    manager visits the LAST of several equal-sum combinations first), so two optimal
     partitions with different sums could in principle be returned. *)
 Section CKKSums.
   Context {A : Type} (valueof nameof : A -> Z).
